@@ -42,4 +42,6 @@ extern crate walkdir;
 mod errors;
 mod workspace;
 
+#[cfg(feature = "verif")]
+pub use workspace::VerifSnapshot;
 pub use workspace::Workspace;
